@@ -269,7 +269,9 @@ def run(ctx):
     n = 150 if ctx.tier == 'quick' else 3000
     ctx.rule = ('random well-formed-core systems over 4-8 variables with rational right-hand sides (sums, products, squares, '
                 'zero-quantity terms, derivative atoms), ODEs, constants; short edit histories; role queries and get_value of '
-                'every variable; second history with the same final content; non-trivial = at least 3 get_value answers')
+                'every variable; second history with the same final content; histories of convert_variable calls on generated models '
+                'compared with a freshly built model (roles, definitions, get_value; oracle only); non-trivial = at least 3 '
+                'get_value answers')
     ctx.trusted += ['right-hand sides restricted to the rational fragment so that the reference value is exact',
                     'float(expr) of SymPy modelled as exact evaluation (tolerance 1e-9)']
     cases = load_corpus() + [msm.gen_case(ctx.seed * 100000 + i, 'value') for i in range(n)]
@@ -286,6 +288,9 @@ def run(ctx):
     msm.correspond(ctx, cases, [p for p, _ in results], 'C10', fn=FN, with_rhs=True)
     for c in cases[:2]:
         ctx.sample({'base': c['base'], 'pool': c['pool'][:4], 'ops': c['ops'][:10]})
+    # "none of this depends on how the model was reached": unit conversion is one way to reach a model
+    from props import c08
+    c08.conversion_stratum(ctx, 'C10', 40 if ctx.tier == 'quick' else 600)
     if ctx.tie_breaks and not ctx.violations:
         more = [msm.gen_case(ctx.seed * 100000 + 50000 + i, 'value') for i in range(8 * n if ctx.tier == 'quick' else n)]
         for case, bad in zip(more, vlib.pmap(run_oracle, more)):
@@ -302,6 +307,12 @@ def load_corpus():
 
 
 def replay(ctx, case):
+    if 'conversion_case' in case:
+        import cvlib
+        bad = [b for b in cvlib.conversion_coherence(case['conversion_case']) if b[0] in ('C10', 'C08')]
+        for who, what, detail in bad:
+            ctx.violation(what, {'conversion_case': case['conversion_case'], 'detail': detail})
+        return bad[0][1] if bad else None
     c = case.get('case', case)
     bad = run_oracle(c)
     for what, detail in bad:
